@@ -250,6 +250,8 @@ pub fn check(sc: &Scenario, ex: &mut Exec) -> (Verdict, Option<String>) {
             let deviates = |a: &simcommon::query::AggSpec| a.arg.starts_with("log2(") || a.arg.starts_with("log10(") || a.arg.starts_with("pow(") || a.arg.starts_with("power(") || a.arg.contains(" / ");
             let rank_aggs: Vec<&simcommon::query::AggSpec> = if q.aggs.iter().any(|a| !deviates(a)) { q.aggs.iter().filter(|a| !deviates(a)).collect() } else { q.aggs.iter().collect() };
             let aidx: Vec<usize> = rank_aggs.iter().filter_map(|a| rs.col(&a.alias)).collect();
+            // (an empty group reads zero in EVERY aggregate, the deviating ones included)
+            let aidx_all: Vec<usize> = q.aggs.iter().filter_map(|a| rs.col(&a.alias)).collect();
             // a NULL aggregate (no non-NULL value in the group) ranks where the DP side's reading of
             // it ranks: at what an empty group reads
             let zeros: Vec<f64> = rank_aggs.iter().filter(|a| rs.col(&a.alias).is_some()).map(|a| dp_cols.iter().position(|c| c == &a.alias).map_or(0.0, |i| zero_of(&zero_row, i))).collect();
@@ -274,7 +276,7 @@ pub fn check(sc: &Scenario, ex: &mut Exec) -> (Verdict, Option<String>) {
                     if want > 0 {
                         while rows.len() > want {
                             // a row that reads what an empty group reads (through the outer projection)
-                            let reads_zero = |r: &Vec<Cell>| aidx.iter().all(|i| match num(&r[*i]) {
+                            let reads_zero = |r: &Vec<Cell>| aidx_all.iter().all(|i| match num(&r[*i]) {
                                 None => true,
                                 Some(v) => close(v, zero_of(&zero_row, *i), 0.0, 1e-9),
                             });
